@@ -23,6 +23,7 @@ def splitter_configs(tier):
         out.append(dict(cls='PerfectBinomial', noise=0.0) if noise == 0 else None)
         for modes in (dict(A='binomial', B='binomial'), dict(A='perfect', B='binomial'), dict(A='binomial', B='duplicate'), dict(A='perfect', B='duplicate')):
             out.append(dict(cls='General', modes=modes, noise=noise))
+            out.append(dict(cls='General', modes=modes, noise=noise, reconfigured=True))
             for vol in ('binomial', 'perfect', 'duplicate'):
                 out.append(dict(cls='Lineage', modes=modes, volume=vol, noise=noise))
     return [o for o in out if o]
@@ -35,6 +36,10 @@ def make_splitter(cfg, m):
         return PerfectBinomialVolumeSplitter()
     if cfg['cls'] == 'General':
         s = GeneralVolumeSplitter()
+        if cfg.get('reconfigured'):
+            # a splitter that was configured differently before: the final configuration is what counts
+            s.py_set_partitioning({'duplicate': [sp_ for sp_, md in cfg['modes'].items() if md == 'binomial'],
+                                   'perfect': [sp_ for sp_, md in cfg['modes'].items() if md == 'duplicate']}, m)
         opts = {}
         for sp_, md in cfg['modes'].items():
             if md != 'binomial':
@@ -165,6 +170,10 @@ def lineage_models(tier):
           events=[dict(kind='volume', type='linear', growth_rate=0.3, prop=ma([], [], 0.9)),
                   dict(kind='division', type='division', prop=ma([], [], 0.7)),
                   dict(kind='death', type='death', prop=ma([A], [], 0.1))]),
+        L('rule+event-splitters', birthdeath, x0, volume_rules=[dict(type='linear', growth_rate=1.2)],
+          division_rules=[dict(type='volume', threshold=1.55, splitter=dict(modes={A: 'perfect', B: 'binomial', D: 'binomial'}, volume='perfect', noise=0.0))],
+          events=[dict(kind='division', type='division', prop=ma([], [], 0.9),
+                       splitter=dict(modes={A: 'duplicate', B: 'duplicate', D: 'duplicate'}, volume='duplicate', noise=0.0))]),
         L('rules+time', birthdeath, x0, rules=rule, volume_rules=[dict(type='linear', growth_rate=1.2)], division_rules=[dict(type='time', threshold=0.5)],
           splitter=dict(modes={A: 'binomial', B: 'binomial', D: 'perfect'}, volume='perfect', noise=0.0)),
     ]
@@ -188,21 +197,23 @@ def build_lineage(sp):
             m.create_death_rule('species', {'specie': r['specie'], 'threshold': r['threshold'], 'comp': r['comp']})
         else:
             m.create_death_rule('param', {'param': r['param'], 'threshold': r['threshold'], 'comp': r['comp']})
-    s = sp['splitter']
-    opts = dict(s['modes']); opts['volume'] = s['volume']
-    vs = LineageVolumeSplitter(m, options=opts, partition_noise=s['noise'])
+    def mk_splitter(s):
+        opts = dict(s['modes']); opts['volume'] = s['volume']
+        return LineageVolumeSplitter(m, options=opts, partition_noise=s['noise'])
+    vs = mk_splitter(sp['splitter'])
     for r in sp.get('division_rules', []):
+        vr = mk_splitter(r['splitter']) if r.get('splitter') else vs
         if r['type'] == 'general':
-            m.create_division_rule('general', {'equation': rend(r['equation'])}, vs)
+            m.create_division_rule('general', {'equation': rend(r['equation'])}, vr)
         else:
-            m.create_division_rule(r['type'], {'threshold': r['threshold']}, vs)
+            m.create_division_rule(r['type'], {'threshold': r['threshold']}, vr)
     for e in sp.get('events', []):
         pd = {'k': e['prop']['k'], 'species': '*'.join(e['prop']['reactants'])}
         if e['kind'] == 'volume':
             ep = {'growth_rate': e['growth_rate']} if e['type'] in ('linear', 'multiplicative') else {'equation': rend(e['equation'])}
             m.create_volume_event(e['type'], ep, 'massaction', pd)
         elif e['kind'] == 'division':
-            m.create_division_event('division', {}, 'massaction', pd, vs)
+            m.create_division_event('division', {}, 'massaction', pd, mk_splitter(e['splitter']) if e.get('splitter') else vs)
         else:
             m.create_death_event('death', {}, 'massaction', pd)
     m.py_initialize()
@@ -292,7 +303,6 @@ def run_config(c, cfg):
                 c.violation(pre + 'shape', 'cell %d: %d rows, %d volumes, %d times' % (ci, len(cell['rows']), len(cell['vols']), len(cell['times'])), case)
                 return
         if mode == 'lineage':
-            modes = sp['splitter']['modes']
             for ci, cell in enumerate(cells_impl):
                 if cell['parent'] is not None:
                     mom = cells_impl[cell['parent']] if cell['parent'] != 'outside' else None
@@ -305,6 +315,8 @@ def run_config(c, cfg):
                 if cell['daughters']:
                     d1, d2 = (cells_impl[k] for k in cell['daughters'])
                     last = cell['rows'][-1]
+                    route = LS.splitter_for(sp, cells_ref[ci]['final']['divided']) if ci < len(cells_ref) and cells_ref[ci]['final']['divided'] >= 0 else sp['splitter']
+                    modes = route['modes']
                     for si, s in enumerate(sp['species']):
                         a_, b_ = d1['rows'][0][si], d2['rows'][0][si]
                         md = modes.get(s, 'binomial')
@@ -317,7 +329,7 @@ def run_config(c, cfg):
                         if md != 'duplicate' and (a_ + b_ != last[si] or a_ < 0 or b_ < 0):
                             c.violation(pre + 'partition-conservation', '%s %s: mother ends with %r, daughters start with %r + %r' % (md, s, last[si], a_, b_), case)
                             return
-                    if sp['splitter']['volume'] != 'duplicate' and abs(d1['vols'][0] + d2['vols'][0] - cell['vols'][-1]) > 1e-9 * cell['vols'][-1]:
+                    if route['volume'] != 'duplicate' and abs(d1['vols'][0] + d2['vols'][0] - cell['vols'][-1]) > 1e-9 * cell['vols'][-1]:
                         c.violation(pre + 'partition-volume', 'daughter volumes %r + %r, mother %r' % (d1['vols'][0], d2['vols'][0], cell['vols'][-1]), case)
                         return
         # conformance with the reference
